@@ -141,6 +141,14 @@ def run_one(tape, tier, prop):
             if prev is not None and p > prev:
                 return ("order", {"image": name, "index": i})
             prev = p
+        # the guesses themselves (through main() and the stdout seam)
+        for e in runs[name].emitted:
+            if any(x[0] == "M" for x in e["pt"]):
+                continue
+            want = ref.expand(e["pt"])
+            if sorted(want) != sorted(e["lines"]):
+                return ("guesses_differ_from_restricted_grammar", {"image": name, "pt": repr(e["pt"]), "expected": sorted(want)[:6],
+                                                                   "written": sorted(e["lines"])[:6]})
         return None
 
     problems = []
@@ -176,10 +184,16 @@ def run_one(tape, tier, prop):
                 return out
             if nm_lines(runs["S"]) != nm_lines(runs["D"]):
                 problems.append(("skip_brute_guesses_differ", {}))
-            lower_ok = all(not any(n[0][0] == "C" and refL.vars[n[0]][n[1]]["values"] != ["L" * int(n[0][1:])] for n in e["pt"])
-                           for e in runs["L"].emitted)
-            if not lower_ok:
-                problems.append(("all_lower_mask_not_collapsed", {}))
+            # --all_lower: no guess of the L image may contain a letter that differs from its lower-case form unless the
+            # ruleset's alpha value itself does (values are stored lower-case by the trainer; synthetic ones are lower-case)
+            for e in runs["L"].emitted:
+                if any(x[0] == "M" for x in e["pt"]):
+                    continue
+                bad = [g for g in e["lines"] if g != g.lower() and all(v == v.lower() for n, i in e["pt"] if n[0] == "A"
+                                                                    for v in refL.vars[n][i]["values"])]
+                if bad:
+                    problems.append(("all_lower_emits_upper_case", {"guess": bad[0], "pt": repr(e["pt"])}))
+                    break
     # flags through save/restore: quit in a flagged process, --load without flags
     hist = None
     if not problems:
